@@ -1709,6 +1709,10 @@ def deep_enc_part(ctx: vlib.Ctx, mod, mem: Members):
          stale_fun="qcase_stale", imports="UnionModel UnionDeep UnionDeepEnc", shard=150, needs=("theories/UnionDeepEnc.vo",))
     # typing membership and the membership reference inside the model: rconf = conforms(), rmem = the Python reference
     # (first conforming member), and the theorem's conclusion evaluated on every case of its domain
+    rcap = ctx.budget(2400, 4500)      # the leaf tables make these cases large: keep the thorough tier within its time
+    if len(rcases) > rcap:
+        keep = sorted(rng.sample(range(len(rcases)), rcap))
+        rcases, rinfo = [rcases[i] for i in keep], [rinfo[i] for i in keep]
     corr(ctx, "member-value-model-vs-oracle", rcases, rinfo, "rcase", ["rcase_ok", "rcase_conf", "rcase_ref", "rcase_thm"],
          imports="UnionModel UnionDeep UnionDeepEnc UnionMember", shard=150, needs=("theories/UnionMember.vo",))
 
